@@ -20,6 +20,7 @@ import Driver.Timers
 import Driver.Journal
 import Driver.Replay
 import Driver.EventLog
+import Driver.Lifecycle
 
 def main (args : List String) : IO UInt32 := do
   let stdin ← IO.getStdin
@@ -45,4 +46,5 @@ def main (args : List String) : IO UInt32 := do
   | ["journal"] => Drv.loop stdin Drv.Journal.step {}; return 0
   | ["replay"] => Drv.loop stdin Drv.Replay.step {}; return 0
   | ["eventlog"] => Drv.loop stdin Drv.EventLog.step {}; return 0
+  | ["lifecycle"] => Drv.loop stdin Drv.Lifecycle.step {}; return 0
   | _ => IO.eprintln "usage: wfdriver <model>"; return 2
